@@ -24,6 +24,7 @@ use vcommon::util;
 enum Ctor {
     New,      // new_group_values(schema, &GroupOrdering::None)
     NewFull,  // new_group_values(schema, &GroupOrdering::Full)
+    NewPartial, // new_group_values(schema, &GroupOrdering::Partial(first column))
     ColF,     // GroupValuesColumn::<false>::try_new
     ColT,     // GroupValuesColumn::<true>::try_new
     Rows,     // GroupValuesRows::try_new
@@ -75,7 +76,9 @@ fn pool_values(dt: &DataType) -> ArrayRef {
         UInt16 => from_i64(i64s(16, false), dt),
         UInt32 => from_i64(i64s(32, false), dt),
         UInt64 => Arc::new(UInt64Array::from(vec![0, 1, u64::MAX, u64::MAX - 1, 1u64 << 63])),
-        Float16 | Float32 | Float64 => cast(&Float64Array::from(vec![0.0, 1.0, -1.0, 1.5, 65504.0]), dt).unwrap(),
+        // NaN is one key (one bit pattern is used); -0.0 is left out: the engine folds it into +0.0 (canonicalize), and
+        // the nested row-backed columns document a different treatment, so the property text does not fix the answer
+        Float16 | Float32 | Float64 => cast(&Float64Array::from(vec![0.0, f64::NAN, 1.0, -1.5, 65504.0, 2.5]), dt).unwrap(),
         Decimal32(_, _) | Decimal64(_, _) | Decimal128(_, _) | Decimal256(_, _) => from_i64(vec![0, 1, -1, 12345, -12345], dt),
         Date32 => from_i32(vec![0, 1, -1, i32::MAX, i32::MIN], dt),
         Date64 => from_i64(vec![0, 86_400_000, -86_400_000, 864_000_000_000, 1], dt),
@@ -177,6 +180,7 @@ fn instantiate(t: &Target) -> datafusion_common::Result<Box<dyn GroupValues>> {
     Ok(match t.ctor {
         Ctor::New => new_group_values(s, &GroupOrdering::None)?,
         Ctor::NewFull => new_group_values(s, &GroupOrdering::try_new(&InputOrderMode::Sorted)?)?,
+        Ctor::NewPartial => new_group_values(s, &GroupOrdering::try_new(&InputOrderMode::PartiallySorted(vec![0]))?)?,
         Ctor::ColF => Box::new(GroupValuesColumn::<false>::try_new(s)?),
         Ctor::ColT => Box::new(GroupValuesColumn::<true>::try_new(s)?),
         Ctor::Rows => Box::new(GroupValuesRows::try_new(s)?),
@@ -191,6 +195,7 @@ fn targets(ncol: usize) -> (Vec<Target>, Vec<String>) {
                 specs.push((vec![(dt.clone(), nullable)], Ctor::New));
             }
             specs.push((vec![(dt.clone(), true)], Ctor::NewFull));
+            specs.push((vec![(dt.clone(), false)], Ctor::NewPartial));
             specs.push((vec![(dt.clone(), true)], Ctor::ColF));
             specs.push((vec![(dt.clone(), false)], Ctor::ColF));
             specs.push((vec![(dt.clone(), true)], Ctor::ColT));
@@ -202,6 +207,7 @@ fn targets(ncol: usize) -> (Vec<Target>, Vec<String>) {
                 specs.push((vec![(a.clone(), na), (b.clone(), nb)], Ctor::New));
             }
             specs.push((vec![(a.clone(), true), (b.clone(), true)], Ctor::NewFull));
+            specs.push((vec![(a.clone(), true), (b.clone(), true)], Ctor::NewPartial));
             specs.push((vec![(a.clone(), true), (b.clone(), false)], Ctor::ColT));
             specs.push((vec![(a.clone(), true), (b.clone(), true)], Ctor::Rows));
             specs.push((vec![(b.clone(), true), (a.clone(), true)], Ctor::New));
@@ -231,7 +237,7 @@ fn targets(ncol: usize) -> (Vec<Target>, Vec<String>) {
         let column_impl = match ctor {
             Ctor::ColF | Ctor::ColT => true,
             Ctor::Rows => false,
-            Ctor::New | Ctor::NewFull => !specialized_single && supported_schema(&schema),
+            Ctor::New | Ctor::NewFull | Ctor::NewPartial => !specialized_single && supported_schema(&schema),
         };
         let family = if column_impl {
             "column"
@@ -431,7 +437,8 @@ pub fn main() {
     }
     let mut violations: Vec<Value> = vec![];
     let mut nviol = 0u64;
-    let mut stats = Stats { raw: util::has_flag("--raw"), ..Default::default() };
+    // the four C13 findings are fixed in the tree: histories are replayed exactly as generated (no call discipline)
+    let mut stats = Stats { raw: !util::has_flag("--discipline"), ..Default::default() };
     let mut evaluations = 0u64;
     let mut skipped = 0u64;
     let mut per_target: BTreeMap<String, u64> = BTreeMap::new();
@@ -470,7 +477,7 @@ pub fn main() {
                 // between NULL / empty lists ...), ids diverge at an intern that follows an emit(First n)
                 let nested = t.schema.fields().iter().any(|f| f.data_type().is_nested());
                 let after_first = step >= 0 && ops[..step as usize].iter().any(|o| o["op"] == "emit_first");
-                let known = t.column_impl && matches!(t.ctor, Ctor::New | Ctor::ColF) && nested && after_first && msg.starts_with("intern(");
+                let known = false && t.column_impl && matches!(t.ctor, Ctor::New | Ctor::ColF) && nested && after_first && msg.starts_with("intern(");
                 violations.push(json!({"case": case, "target": t.name, "rot": rot, "slice_prefix": pre, "step": step, "oracle": msg,
                     "known_key": if known { Value::from("GroupValuesColumn<false>: emit(First n) with several hash-collision lists loses live keys") } else { Value::Null }}));
             }
